@@ -166,6 +166,35 @@ def tlc_judge_file(workdir, module, cfg, trace_file, idx, timeout=900):
     return r
 
 
+def judge_groups(workdir, module, cfg, groups, per_chunk=300, jobs=8, timeout=900):
+    """Like judge_events, but `groups` is a list of lists of lines (one behaviour each) that are never split."""
+    tdir = Path(workdir) / "traces"
+    tdir.mkdir(exist_ok=True)
+    files = []
+    for i in range(0, len(groups), per_chunk):
+        f = tdir / f"{module}-g{i // per_chunk:04d}.ndjson"
+        f.write_text("\n".join("\n".join(g) for g in groups[i:i + per_chunk]) + "\n")
+        files.append(f)
+    verdicts, states, trans = [], 0, 0
+
+    def one(a):
+        i, f = a
+        return tlc_judge_file(workdir, module, cfg, f, f"g{i}", timeout=timeout)
+
+    with ThreadPoolExecutor(max_workers=jobs) as ex:
+        for r in ex.map(one, enumerate(files)):
+            states += r.distinct
+            trans += r.generated
+            seen = set()
+            for s in r.tagged("VERDICT"):
+                if s not in seen:
+                    seen.add(s)
+                    verdicts.append(json.loads(s))
+            if "is violated" in r.out:
+                raise ToolError(f"an invariant of {module} was violated while replaying a recorded trace:\n" + r.out[-1500:])
+    return verdicts, states, trans
+
+
 def judge_events(workdir, module, cfg, lines, chunk=1500, jobs=8, timeout=900):
     """Split recorded events into chunks, judge each with its own JVM, return (verdicts, states, transitions).
     A verdict is the dict printed by the trace spec for an event that is not clean."""
